@@ -33,6 +33,7 @@ RULE += (' Also: partially ordered / NaN keys in nlargest and nsmallest.')
 RULE += (' Also: the consumer calling other tools once per item with closures / partials bound to that item.')
 RULE += (' Also: long lazily produced streams of awaitable jobs (coroutines, future-like objects) bound to their record, through await_each and any_iter.')
 RULE += (' Also: compress with a long lazily produced synchronous selector stream.')
+RULE += (' Also: min / max / nsmallest with async def keys.')
 ASSUMPTIONS = ["the bound's constant was read off the unchanged tree with slack; a buffering tool grows linearly and "
                "crosses it within a few steps, so the verdict does not depend on the exact constant"]
 EXHAUSTIVE = {"quick": False, "thorough": False}
@@ -208,6 +209,14 @@ class PageStream:
 
 
 # name -> (nsources, window, build(streams, n) -> async iterator or awaitable, kind)
+async def _async_key(x):
+    return x.key
+
+
+async def _async_neg_key(x):
+    return -x.key
+
+
 def _tools():
     T = {}
     always = lambda x: True  # noqa: E731
@@ -268,6 +277,9 @@ def _tools():
     T["sum_bytes"] = (1, 0, lambda S, n: A.sum(S[0], b""), "agg", {"text": "bytes"})
     T["min"] = (1, 1, lambda S, n: A.min(S[0]), "agg", {})
     T["max"] = (1, 1, lambda S, n: A.max(S[0], key=lambda x: x.key), "agg", {})
+    T["max_async_key_descending"] = (1, 1, lambda S, n: A.max(S[0], key=_async_neg_key), "agg", {})
+    T["min_async_key_ascending"] = (1, 1, lambda S, n: A.min(S[0], key=_async_key), "agg", {})
+    T["sorted_async_key_head"] = (1, 1, lambda S, n: A.nsmallest(S[0], 1, key=_async_key), "agg", {})
     T["reduce"] = (1, 1, lambda S, n: A.reduce(lambda a, b: b, S[0]), "agg", {})
     T["nlargest5"] = (1, 5, lambda S, n: A.nlargest(S[0], 5), "agg", {})
     # keys that are not totally ordered (disjoint sets; NaN gaps): whatever such keys do to the RESULT, the selection still
